@@ -138,6 +138,7 @@ def c04_cases(tier, seed):
     cs.append(Case("<!DOCTYPE r [<!ENTITY x 'ONE'><!ENTITY x 'TWO'><!ENTITY y '[&x;]'>]><r a='&x;'>&x;&y;<c b='&y;'/></r>", "nc", True,
                    meta={"gen": "first-wins-text", "expect_content": ["Q 1 - x72", "A 1 0 - x61 " + spec.hexs("ONE"), "X 2 " + spec.hexs("ONE[ONE]"),
                                                                       "Q 3 - x63", "A 3 0 - x62 " + spec.hexs("[ONE]")]}))
+    cs += gens.g_ent_competing(flags="nc")
     return cs
 
 
@@ -182,6 +183,7 @@ def c05_cases(tier, seed):
     cs += d18_cases()
     # the attribute leak across an entity boundary (D9)
     cs.append(Case("<!DOCTYPE r [<!ENTITY p '<b a=\"1\"'>]><r>&p;<c/></r>", "nc", True, meta={"gen": "leak", "illformed": "start tag split by an entity boundary"}))
+    cs += gens.g_ent_competing(flags="c")
     return cs
 
 
@@ -287,6 +289,7 @@ def c07_cases(tier, seed):
                        meta={"gen": "budget-per-reference-mixed", "n": n,
                              "expect_content": ["Q 1 - x72", "A 1 0 - x76 " + spec.hexs(one), "X 2 " + spec.hexs(one),
                                                 "Q 3 - x63", "A 3 0 - x77 " + spec.hexs(one), "X 4 " + spec.hexs(one)]}))
+    cs += gens.g_ent_competing(flags="nc")
     return cs
 
 
@@ -423,7 +426,7 @@ def c08_cases(tier, seed):
         for cut in range(1, end):
             cs.append(Case(s[:cut], "", True, meta={"gen": "truncation", "illformed": "truncated at %d of %d" % (cut, end)}))
     for s_ in ("<!DOCTYPE a [<!NOTATION n SYSTEM '>'>]><a/>", "<!DOCTYPE a [<!ATTLIST a b CDATA \">\">]><a/>",
-              "<!DOCTYPE a [<!NOTATION n PUBLIC \"a>'b\" '>\">'><!ENTITY e 'v'>]><a>&e;</a>"):
+              "<!DOCTYPE a [<!NOTATION n SYSTEM \"a>'b\"><!ATTLIST a c CDATA '>\">'><!ENTITY e 'v'>]><a>&e;</a>"):
         cs.append(Case(s_, "", True, meta={"gen": "d22-wellformed", "wellformed": "'>' inside a quoted literal of a skipped declaration"}))
     cs += gens.g_meta(3 if q else 4, embed=True)
     cs += gens.g_tokens(3 if q else 4, flags="")
@@ -647,7 +650,52 @@ def c14_cases(tier, seed):
         cs.append(Case(ws + s, "t", True, meta={"gen": "shift-" + kind, "k": k}))
         groups.append((bi, bi + 1, kind, k))
     SHIFT_GROUPS["C14"] = groups
+    # whitespace at EVERY prolog point (after the XML declaration, between comments / PIs, inside the internal subset
+    # between its declarations, after the DOCTYPE) of documents whose error lies in the body, in an entity value
+    # declared before or after the point, or in the subset itself: the reported place must move with the text
+    pgroups = []
+    bodies = [
+        (["<!ENTITY a 'x&b;'>", "<!ENTITY b 'yy&a;'>"], "<t>&a;</t>"),                                   # loop met in text
+        (["<!ENTITY a 'x&b;'>", "<!ENTITY b 'yy&a;'>"], "<t v='&a;'/>"),                                 # loop met in an attribute
+        (["<!ENTITY cmp 'a &amp; b < c'>", "<!ENTITY outer '[&cmp;]'>"], "<t v='&outer;'/>"),            # '<' reaches an attribute
+        (["<!ENTITY e '<b>t</c>'>", "<!ENTITY f 'u'>"], "<t>&f;&e;</t>"),                                 # mismatched tag inside a value
+        (["<!ENTITY e 'v'>", "<!ENTITY f '&nope;'>"], "<t>&e;&f;</t>"),                                   # unknown reference inside a value
+        (["<!ENTITY e 'v'>", "<!ENTITY f 'w'>"], "<t a='1' b='&e;' a='2'>&f;</t>"),                       # duplicate attribute in the body
+        (["<!ENTITY e 'v'>", "<!ENTITY f 'w'>"], "<t>&e;\u0001</t>"),                                    # non-Char in the body
+        (["<!ENTITY e 'v'>", "<!FOO x>"], "<t/>"),                                                       # unknown declaration in the subset
+        (["<!ENTITY e 'v'>", "<!ENTITY f 'w'>"], "<p:t/>"),                                              # unknown prefix
+    ]
+    for decls, body in bodies:
+        parts = ["<?xml version='1.0'?>", "<!--c\u00e9-->", "<?p q?>", "<!DOCTYPE t [", decls[0], "<!--s-->", decls[1], "<?q r?>", "]>", "<!--d-->", body]
+        base = "".join(parts)
+        bi = len(cs)
+        cs.append(Case(base, "t", True, meta={"gen": "prolog-point-base"}))
+        for cut in range(1, len(parts)):
+            P = len("".join(parts[:cut]).encode())
+            for ws in (" ", "\n", "   ", "\n\n", " \n ", "\t\n\n\n\n"):
+                pgroups.append((bi, len(cs), P, len(ws.encode())))
+                cs.append(Case("".join(parts[:cut]) + ws + "".join(parts[cut:]), "t", True, meta={"gen": "prolog-point", "cut": cut, "ws": ws}))
+    SHIFT_GROUPS["C14-points"] = pgroups
     return cs
+
+
+def _pos_to_offset(data, row, col):
+    """byte offset of the 1-based (row, col) in data: rows by LF, columns in characters"""
+    lines = data.split(b"\n")
+    if row < 1 or row > len(lines):
+        return None
+    off = sum(len(l) + 1 for l in lines[:row - 1])
+    line = lines[row - 1].decode("utf-8", "replace")
+    if col < 1 or col > len(line) + 1:
+        return None
+    return off + len(line[:col - 1].encode("utf-8"))
+
+
+def _offset_to_pos(data, off):
+    before = data[:off]
+    row = before.count(b"\n") + 1
+    line_start = before.rfind(b"\n") + 1
+    return row, len(before[line_start:].decode("utf-8", "replace")) + 1
 
 
 def c14_relation(cases, impl):
@@ -673,6 +721,25 @@ def c14_relation(cases, impl):
             if eb and eb[0].split(" ")[1] != fa[1]:
                 continue
             out.append(([base, shifted], "error %s becomes %s after inserting %d %s" % (ea[0], eb[0] if eb else "Ok", k, "line breaks" if kind == "lf" else "spaces")))
+    for base, shifted, P, k in SHIFT_GROUPS.get("C14-points", []):
+        a, b2 = impl[base], impl[shifted]
+        ea = [l for l in a if l.startswith("E ")]
+        eb = [l for l in b2 if l.startswith("E ")]
+        if not ea:
+            continue
+        fa = ea[0].split(" ")
+        if not eb:
+            out.append(([base, shifted], "error %s disappears after inserting whitespace at prolog offset %d" % (ea[0], P)))
+            continue
+        fb = eb[0].split(" ")
+        off = _pos_to_offset(cases[base].data, int(fa[2]), int(fa[3]))
+        if off is None:
+            out.append(([base], "error position %s:%s is not a position of the input" % (fa[2], fa[3])))
+            continue
+        off2 = off + k if off >= P else off
+        want = fa[:2] + [str(x) for x in _offset_to_pos(cases[shifted].data, off2)] + fa[4:]
+        if fb != want:
+            out.append(([base, shifted], "error %s becomes %s (expected %s) after inserting %d whitespace bytes at prolog offset %d" % (ea[0], eb[0], " ".join(want), k, P)))
     return out
 
 
@@ -1279,7 +1346,10 @@ def run_property(pid, tier, seed):
     for k in known_for(pid):
         kc = Case(bytes.fromhex(k["input_hex"]), "nc", k.get("allow_dtd", True))
         res = rxlib.run_sharded(harness, ["dump"], [kc], work, "known", nshards=1)[0]
-        if k.get("accepted"):
+        if k.get("text_hex"):
+            if any(l.split(" ")[0] == "X" and l.split(" ")[-1] == "x" + k["text_hex"] for l in res):
+                print("KNOWN-FINDING: property=%s %s" % (pid, k["what"]))
+        elif k.get("accepted"):
             if rxlib.result_class(res) == "ok":
                 print("KNOWN-FINDING: property=%s %s" % (pid, k["what"]))
         elif any(l.startswith("E " + k["error"]) for l in res):
